@@ -231,15 +231,39 @@ def check(model, rep, tier):
            nontrivial=False)
 
   # ---------------------------------------------------------------- HIDDEN-TEST
-  for rel, q, need in (
-      (CFG, 'AstToCfg.visit_For',
-       'self._process_basic_statement(anno.getanno(node, anno.Basic.EXTRA_LOOP_TEST))'),
-      (ACT, 'ActivityAnalyzer.visit_For',
-       'self._process_statement(anno.getanno(node, anno.Basic.EXTRA_LOOP_TEST))'),
-      (RF, 'TreeAnnotator.visit',
-       'anno.getanno(node, anno.Basic.EXTRA_LOOP_TEST, default=None)')):
+  def _values(fi, e, at):
+    """candidate texts of an argument: itself expanded; for a loop variable the
+    elements of every literal tuple / list that can reach the iterated name"""
+    out = [tpl.xnorm(fi, e, at)]
+    if isinstance(e, ast.Name):
+      for lp in ast.walk(fi.node):
+        if isinstance(lp, ast.For) and isinstance(lp.target, ast.Name) and \
+            lp.target.id == e.id and any(x is e for x in ast.walk(lp)):
+          its = [lp.iter]
+          if isinstance(lp.iter, ast.Name):
+            its = [d for d in (tpl.rdefs(fi.node).reaching(lp.iter, lp.iter.id) or [])
+                   if isinstance(d, ast.AST)]
+          for it in its:
+            if isinstance(it, (ast.Tuple, ast.List)):
+              out += [tpl.xnorm(fi, x, x) if any(x is y for y in ast.walk(fi.node))
+                      else core.norm(x) for x in it.elts]
+    return out
+
+  for rel, q, meth in (
+      (CFG, 'AstToCfg.visit_For', '_process_basic_statement'),
+      (ACT, 'ActivityAnalyzer.visit_For', '_process_statement'),
+      (RF, 'TreeAnnotator.visit', None)):
     f = model.func(rel, q)
-    rep.check(need in core.norm(f.node), 'HIDDEN-TEST', '%s:walks-extra-test' % f.site,
+    p0 = f.params()[0]
+    want = 'anno.getanno(%s, anno.Basic.EXTRA_LOOP_TEST' % p0
+    if meth is None:
+      ok = any(isinstance(c, ast.Call) and core.norm(c).startswith(want)
+               for c in ast.walk(f.node))
+    else:
+      ok = any(isinstance(c, ast.Call) and core.norm(c.func) == 'self.' + meth and c.args
+               and any(v.startswith(want) for v in _values(f, c.args[0], c))
+               for c in ast.walk(f.node))
+    rep.check(ok, 'HIDDEN-TEST', '%s:walks-extra-test' % f.site,
               'the hidden extra loop test (break / return flags) must be visited '
               'by this analysis: it is evaluated on every iteration and reads '
               'the control variable', line=f.node.lineno,
